@@ -85,7 +85,9 @@ class InstrOps:
                 tid = self.path_tid(o.tid, path)
             except Unsupported:
                 tid = None
-        if guard is True:
+        if guard is True or (guard is not False and o.meta.get("birth") is guard):
+            # opt-in "birth_guard_stores": an object allocated under guard G exists only on paths where G holds, so a
+            # store under that very guard need not keep the old value for the (non-existent) paths where G is false
             o.val = self.set_path(o.val, path, lambda old: val)
         else:
             o.val = self.set_path(o.val, path, lambda old: self.ite(guard, val, old, tid))
@@ -135,6 +137,8 @@ class InstrOps:
     def i_Alloc(self, fr, env, ins, guard, state):
         elem = ins["elem"]
         o = self.alloc("var", elem, self.zero(elem), site="%s:%s" % (fr.fn["name"], ins.get("reg")))
+        if self.opts.get("birth_guard_stores") and guard is not True:
+            o.meta["birth"] = guard
         return Ptr.to(o.id)
 
     def i_BinOp(self, fr, env, ins, guard, state):
@@ -703,8 +707,15 @@ class InstrOps:
             mv = self.map_read(o, gg)
             ents = []
             hit_any = False
-            for k, v, p in mv.entries:
-                e = self.eq(k, key)
+            eqs = [self.eq(k, key) for k, v, p in mv.entries]
+            # opt-in (opts map_dedup): the key is syntactically one entry's key and certainly no other's: reuse that
+            # entry (present afterwards under gg) instead of appending a second entry for the same key guarded by !p
+            dedup = self.opts.get("map_dedup", False) and sum(1 for e in eqs if e is True) == 1 and all(e is True or e is False for e in eqs)
+            for (k, v, p), e in zip(mv.entries, eqs):
+                if dedup and e is True:
+                    ents.append((k, self.ite(gg, val, v, et), b_or(p, gg)))
+                    hit_any = True
+                    continue
                 hit = b_and(p, e)
                 if hit is False:
                     ents.append((k, v, p))
@@ -807,6 +818,24 @@ class InstrOps:
         ents = st["ents"]
         pos = st["pos"]
         kt, et = st["kt"], st["et"]
+        if self.opts.get("map_range") == "per_entry" and state is not None and state.get("block") is not None and state.get("block") == state.get("cut_header"):
+            # opt-in (opts map_range=per_entry): the t-th unrolling of a `range` loop header handles exactly snapshot
+            # entry t (concrete key); paths on which that entry is absent skip the body through an extra
+            # header->header edge (emitted by _run_block from state["skip_edge"]). Same iteration order as the default
+            # model (list order), but keys stay concrete and the unrolling ends syntactically after len(ents) iterations.
+            t = st.get("calls", 0)
+            if t >= len(ents):
+                return TupleV([False, self.zero(kt), self.zero(et)])
+            k, v, p = ents[t]
+            o.val = dict(st, calls=t + 1)
+            if p is False or st.get("snapshot"):
+                live = v
+            else:
+                live, _found = self.map_lookup(st["mapptr"], k, guard, et)
+            if p is not True:
+                state["skip_edge"] = b_and(guard, b_not(p))
+                state["guard"] = b_and(guard, p)
+            return TupleV([True, k, live])
         okv = False
         kv = self.zero(kt)
         vv = self.zero(et)
@@ -1287,6 +1316,18 @@ class InstrOps:
                     cases.append((2, ch, None, ets[k_]))
                     k_ += 1
             return c_.select(cases, ins["blocking"], guard, ins.get("pos"), ets)
+        if self.opts.get("select_precise") and n == 1 and not ins["blocking"]:
+            # opt-in (sequential mode): `select { case <op>: default: }` takes the case exactly when it is enabled
+            # (no interference by other goroutines on the channel) -> no choice variable, concrete state stays concrete
+            st = states[0]
+            ch = self.val(env, st["chan"])
+            if st["dir"] == 1:
+                ok = self.chan_send(ch, self.val(env, st["send"]), guard)
+                return TupleV([i_ite(ok, 0, wrap(-1, 64, True), 64), False])
+            v, okr, succ = self.chan_try_recv(ch, guard)
+            if v is None:
+                v = self.zero(self.prog.under(ins["type"])[1]["elems"][2])
+            return TupleV([i_ite(succ, 0, wrap(-1, 64, True), 64), okr, v])
         choice = self.fresh_int("select", 8)
         self.nondets.append(("select", choice, "choice"))
         idx_res = -1 if not ins["blocking"] else 0
@@ -1312,7 +1353,9 @@ class InstrOps:
             # the choice must be enabled
             self.assume(b_implies(int_cmp("==", choice, i, 8, False), en), guard, "select case enabled")
         if ins["blocking"]:
-            self.assume(int_cmp("<", choice, n, 8, False), guard, "blocking select picks a case")
+            # unconditional on purpose (choice is fresh and only read under guard): `guard -> choice<n` with a large guard
+            # at base level sends z3's incremental core into a very long preprocessing (seen in C35)
+            self.assume(int_cmp("<", choice, n, 8, False), True, "blocking select picks a case")
             idx = int_convert(choice, 8, False, 64, True)
         else:
             # default only when no case is enabled would be precise; we over-approximate: default allowed any time a
